@@ -203,6 +203,43 @@ func RandomOps(r *rand.Rand, o GenOpts) []Op {
 			ops = append(ops, Op{K: h})
 		}
 	}
+	// overlap booster: a sibling of an existing rule call with the same scope, target and name
+	// but another matcher, so that "rules accumulate" is exercised on every table
+	for k := 0; k < 2; k++ {
+		if r.Intn(2) == 0 {
+			continue
+		}
+		var cand []int
+		for i, o := range ops {
+			if (o.K == KAllowAttrs && len(o.Attrs) > 0) || o.K == KAllowStyles {
+				cand = append(cand, i)
+			}
+		}
+		if len(cand) == 0 {
+			break
+		}
+		sib := ops[cand[r.Intn(len(cand))]]
+		sib.Attrs = []string{sib.Attrs[r.Intn(len(sib.Attrs))]}
+		sib.Fresh = false // same pattern object for element patterns: the rules share one table entry
+		if sib.K == KAllowAttrs {
+			sib.NoAttrs = false
+			if o.NoURLValRe && genRewritten[sib.Attrs[0]] {
+				sib.Re = ""
+			} else {
+				sib.Re = gen.ValLib[r.Intn(6)].Re
+			}
+		} else {
+			switch r.Intn(3) {
+			case 0:
+				sib.Matcher, sib.Re, sib.Enum, sib.Handler = "re", gen.Pick(r, []string{`^[a-z]+$`, `^[0-9]+(px|em|%)$`, `^#[0-9a-f]{3}$`}), nil, ""
+			case 1:
+				sib.Matcher, sib.Enum, sib.Re, sib.Handler = "enum", pickN(r, []string{"red", "blue", "left", "10px", "none", "bold"}, 1+r.Intn(2)), "", ""
+			default:
+				sib.Matcher, sib.Handler, sib.Re, sib.Enum = "handler", gen.Pick(r, []string{"short", "digits", "has-safe"}), "", nil
+			}
+		}
+		ops = append(ops, sib)
+	}
 	// shuffle everything after the constructor: order of rule calls must not matter,
 	// and the Spec replays switch-like calls in list order so the model follows.
 	rest := ops[1:]
